@@ -60,6 +60,12 @@ static void retain(const char *acc, void *ptr, size_t n, const void *expect, siz
 }
 static void pool_drain(const char *when) { pool_verify(when); while (NPOOL && !abandon) pool_release(NPOOL - 1); while (NPOOL) { hm_free(POOL[NPOOL - 1].expect); NPOOL--; } }
 
+/* ---- allocation failure inside a copying read: the answer may be "no copy" (NULL), never the container's own memory ---- */
+static bool FARM; static long FHITS;
+#define FB() do { FARM = rng_chance(&R, 1, 5); if (FARM) { vf_oom_k = 1 + (long)rng_below(&R, 2); vf_oom_all = rng_chance(&R, 1, 2); oom_begin(); } } while (0)
+#define FE() do { FHITS = FARM ? oom_end() : 0; FARM = false; if (FHITS) vf_count("copying_reads_with_a_failed_allocation", 1); } while (0)
+static bool refused(const void *d) { if (FHITS && !d) { vf_count("copying_reads_refused_under_allocation_failure", 1); return true; } return false; }
+
 /* ---- values -------------------------------------------------------------------------- */
 static unsigned char VB[300]; static long vctr;
 static size_t gval(int kind) {   /* 0 bytes, 1 C string, 2 all zero */
@@ -110,9 +116,9 @@ static void run_tree(long caseno) {
         else if (c < 65) { vf_log("get(newmem) %s", KEYS[id]); if (MP[id]) { size_t sz = 0; void *in = T->getobj(T, KEYS[id], kl, NULL, false);
             int api = (int)rng_below(&R, 3);
             if (api == 2 && (MV[id][MVL[id] - 1] != 0 || strlen((char *)MV[id]) + 1 != MVL[id])) api = 0;
-            void *d = api == 0 ? T->getobj(T, KEYS[id], kl, &sz, true) : api == 1 ? T->get(T, KEYS[id], &sz, true) : (void *)T->getstr(T, KEYS[id], true);
+            FB(); void *d = api == 0 ? T->getobj(T, KEYS[id], kl, &sz, true) : api == 1 ? T->get(T, KEYS[id], &sz, true) : (void *)T->getstr(T, KEYS[id], true); FE();
             if (api == 2 && d) sz = strlen(d) + 1;
-            retain(api == 0 ? "qtreetbl.getobj" : api == 1 ? "qtreetbl.get" : "qtreetbl.getstr", d, sz, MV[id], MVL[id], in); } }
+            if (!refused(d)) retain(api == 0 ? "qtreetbl.getobj" : api == 1 ? "qtreetbl.get" : "qtreetbl.getstr", d, sz, MV[id], MVL[id], in); } }
         else if (c < 75) { vf_log("walk(newmem)"); qtreetbl_obj_t o; memset(&o, 0, sizeof o); int n = 0;
             while (!abandon && T->getnext(T, &o, true)) { int k = mm_id(o.name, o.namesize);
                 if (k < 0 || !MP[k]) { bad("walk-foreign", "walk returned a key that is not stored"); break; }
@@ -120,11 +126,12 @@ static void run_tree(long caseno) {
                 retain("qtreetbl.getnext(name)", o.name, o.namesize, KEYS[k], strlen(KEYS[k]) + 1, NULL);
                 if (!abandon) retain("qtreetbl.getnext(data)", o.data, o.datasize, MV[k], MVL[k], in);
                 if (++n > NK) break; } }
-        else if (c < 83) { vf_log("find_min/max"); int mn = mm_min(), mx = mm_max(); if (mn >= 0) { size_t ns = 0; void *a = T->find_min(T, &ns); retain("qtreetbl.find_min", a, ns, KEYS[mn], strlen(KEYS[mn]) + 1, NULL);
-            if (!abandon) { void *b = T->find_max(T, &ns); retain("qtreetbl.find_max", b, ns, KEYS[mx], strlen(KEYS[mx]) + 1, NULL); } } }
-        else if (c < 93) { vf_log("find_nearest(newmem) %s", KEYS[id]); if (mm_count()) { qtreetbl_obj_t o = T->find_nearest(T, KEYS[id], kl, true);
+        else if (c < 83) { vf_log("find_min/max"); int mn = mm_min(), mx = mm_max(); if (mn >= 0) { size_t ns = 0; FB(); void *a = T->find_min(T, &ns); FE(); if (!refused(a)) retain("qtreetbl.find_min", a, ns, KEYS[mn], strlen(KEYS[mn]) + 1, NULL);
+            if (!abandon) { FB(); void *b = T->find_max(T, &ns); FE(); if (!refused(b)) retain("qtreetbl.find_max", b, ns, KEYS[mx], strlen(KEYS[mx]) + 1, NULL); } } }
+        else if (c < 93) { vf_log("find_nearest(newmem) %s", KEYS[id]); if (mm_count()) { FB(); qtreetbl_obj_t o = T->find_nearest(T, KEYS[id], kl, true); FE();
             int k = o.name ? mm_id(o.name, o.namesize) : -1;
-            if (k < 0 || !MP[k]) bad("nearest-foreign", "find_nearest returned a key that is not stored");
+            if (FHITS && !o.name && !o.data) vf_count("copying_reads_refused_under_allocation_failure", 1);
+            else if (k < 0 || !MP[k]) bad("nearest-foreign", "find_nearest returned a key that is not stored");
             else { retain("qtreetbl.find_nearest(name)", o.name, o.namesize, KEYS[k], strlen(KEYS[k]) + 1, NULL); if (!abandon) retain("qtreetbl.find_nearest(data)", o.data, o.datasize, MV[k], MVL[k], NULL); } } }
         else if (c < 95) { vf_log("clear"); T->clear(T); for (int i = 0; i < NK; i++) mm_del(i); mut = true; }
         vf_count("evaluations", 1);
@@ -149,8 +156,8 @@ static void run_hashtbl(long caseno) {
         else if (c < 55) { vf_log("remove %s", KEYS[id]); cb_t k = cb(KEYS[id], strlen(KEYS[id]) + 1); T->remove(T, (char *)k.p); cb_kill(&k); mm_del(id); mut = true; }
         else if (c < 75) { vf_log("get(newmem) %s", KEYS[id]); if (MP[id]) { size_t sz = 0; void *in = T->get(T, KEYS[id], NULL, false);
             bool str = MV[id][MVL[id] - 1] == 0 && strlen((char *)MV[id]) + 1 == MVL[id] && rng_chance(&R, 1, 2);
-            void *d = str ? (void *)T->getstr(T, KEYS[id], true) : T->get(T, KEYS[id], &sz, true); if (str && d) sz = strlen(d) + 1;
-            retain(str ? "qhashtbl.getstr" : "qhashtbl.get", d, sz, MV[id], MVL[id], in); } }
+            FB(); void *d = str ? (void *)T->getstr(T, KEYS[id], true) : T->get(T, KEYS[id], &sz, true); FE(); if (str && d) sz = strlen(d) + 1;
+            if (!refused(d)) retain(str ? "qhashtbl.getstr" : "qhashtbl.get", d, sz, MV[id], MVL[id], in); } }
         else if (c < 90) { vf_log("walk(newmem)"); qhashtbl_obj_t o; memset(&o, 0, sizeof o); int n = 0;
             while (!abandon && T->getnext(T, &o, true)) { int k = mm_id(o.name, strlen(o.name) + 1);
                 if (k < 0 || !MP[k]) { bad("walk-foreign", "walk returned a key that is not stored"); break; }
@@ -185,8 +192,8 @@ static void run_hasharr(long caseno) {
         else if (c < 55) { vf_log("remove %s", KEYS[id]); cb_t k = cb(KEYS[id], strlen(KEYS[id]) + 1); T->remove(T, (char *)k.p); cb_kill(&k); mm_del(id); mut = true; }
         else if (c < 75) { vf_log("get %s", KEYS[id]); if (MP[id]) { size_t sz = 0;
             bool str = MV[id][MVL[id] - 1] == 0 && strlen((char *)MV[id]) + 1 == MVL[id] && rng_chance(&R, 1, 2);
-            void *d = str ? (void *)T->getstr(T, KEYS[id]) : T->get_by_obj(T, KEYS[id], strlen(KEYS[id]) + 1, &sz); if (str && d) sz = strlen(d) + 1;
-            if (d && ((char *)d >= (char *)mem && (char *)d < (char *)mem + ms)) bad("copy-aliases-internal", "qhasharr get returned a pointer into the table memory");
+            FB(); void *d = str ? (void *)T->getstr(T, KEYS[id]) : T->get_by_obj(T, KEYS[id], strlen(KEYS[id]) + 1, &sz); FE(); if (str && d) sz = strlen(d) + 1;
+            if (refused(d)) ; else if (d && ((char *)d >= (char *)mem && (char *)d < (char *)mem + ms)) bad("copy-aliases-internal", "qhasharr get returned a pointer into the table memory");
             else retain(str ? "qhasharr.getstr" : "qhasharr.get", d, sz, MV[id], MVL[id], NULL); } }
         else if (c < 90) { vf_log("walk"); qhasharr_obj_t o; int idx = 0, n = 0;
             while (!abandon && T->getnext(T, &o, &idx)) { int k = mm_id(o.name, o.namesize);
@@ -224,10 +231,10 @@ static void run_listtbl(long caseno) {
             vf_log("get(newmem) %s", KEYS[id]);
             if (m >= 0) { size_t sz = 0; void *in = T->get(T, KEYS[id], NULL, false);
                 bool str = LT[m].v[LT[m].n - 1] == 0 && strlen((char *)LT[m].v) + 1 == LT[m].n && rng_chance(&R, 1, 2);
-                void *d = str ? (void *)T->getstr(T, KEYS[id], true) : T->get(T, KEYS[id], &sz, true); if (str && d) sz = strlen(d) + 1;
-                retain(str ? "qlisttbl.getstr" : "qlisttbl.get", d, sz, LT[m].v, LT[m].n, in); } }
-        else if (c < 80) { vf_log("getmulti(newmem) %s", KEYS[id]); size_t n = 0; qlisttbl_data_t *objs = T->getmulti(T, KEYS[id], true, &n); size_t k = 0;
-            for (int i = 0; i < NLT && !abandon; i++) { int p = fwd ? i : NLT - 1 - i; if (LT[p].id != id) continue;
+                FB(); void *d = str ? (void *)T->getstr(T, KEYS[id], true) : T->get(T, KEYS[id], &sz, true); FE(); if (str && d) sz = strlen(d) + 1;
+                if (!refused(d)) retain(str ? "qlisttbl.getstr" : "qlisttbl.get", d, sz, LT[m].v, LT[m].n, in); } }
+        else if (c < 80) { vf_log("getmulti(newmem) %s", KEYS[id]); size_t n = 0; FB(); qlisttbl_data_t *objs = T->getmulti(T, KEYS[id], true, &n); FE(); size_t k = 0;
+            if (!refused(objs)) for (int i = 0; i < NLT && !abandon; i++) { int p = fwd ? i : NLT - 1 - i; if (LT[p].id != id) continue;
                 if (k >= n) { bad("getmulti-short", "getmulti returned %zu entries", n); break; }
                 retain("qlisttbl.getmulti", objs[k].data, objs[k].size, LT[p].v, LT[p].n, NULL); objs[k].data = NULL; k++; }
             if (objs) { for (size_t j = k; j < n; j++) free(objs[j].data); free(objs); } }
@@ -268,14 +275,14 @@ static void run_list(long caseno) {
         else if (c < 52 && NSQ) { size_t sz = 0; int how = (int)rng_below(&R, 3); int p = how == 0 ? 0 : how == 1 ? NSQ - 1 : pos;
             vf_log("get(newmem) %d", p);
             void *in = L->getat(L, p, NULL, false);
-            void *d = how == 0 ? L->getfirst(L, &sz, true) : how == 1 ? L->getlast(L, &sz, true) : L->getat(L, p, &sz, true);
-            retain(how == 0 ? "qlist.getfirst" : how == 1 ? "qlist.getlast" : "qlist.getat", d, sz, SQ[p].d, SQ[p].n, in); }
+            FB(); void *d = how == 0 ? L->getfirst(L, &sz, true) : how == 1 ? L->getlast(L, &sz, true) : L->getat(L, p, &sz, true); FE();
+            if (!refused(d)) retain(how == 0 ? "qlist.getfirst" : how == 1 ? "qlist.getlast" : "qlist.getat", d, sz, SQ[p].d, SQ[p].n, in); }
         else if (c < 68 && NSQ) { size_t sz = 0; int how = (int)rng_below(&R, 3); int p = how == 0 ? 0 : how == 1 ? NSQ - 1 : pos;
             vf_log("pop %d", p);
             void *d = how == 0 ? L->popfirst(L, &sz) : how == 1 ? L->poplast(L, &sz) : L->popat(L, p, &sz);
             retain(how == 0 ? "qlist.popfirst" : how == 1 ? "qlist.poplast" : "qlist.popat", d, sz, SQ[p].d, SQ[p].n, NULL); sq_del(p); mut = true; }
-        else if (c < 76 && NSQ) { vf_log("toarray/tostring"); size_t sz = 0, en; void *a = L->toarray(L, &sz); void *e = sq_flat(&en, false); retain("qlist.toarray", a, sz, e, en, NULL); hm_free(e);
-            if (!abandon) { char *s = L->tostring(L); e = sq_flat(&en, true); retain("qlist.tostring", s, s ? strlen(s) + 1 : 0, e, strlen(e) + 1, NULL); hm_free(e); } }
+        else if (c < 76 && NSQ) { vf_log("toarray/tostring"); size_t sz = 0, en; FB(); void *a = L->toarray(L, &sz); FE(); void *e = sq_flat(&en, false); if (!refused(a)) retain("qlist.toarray", a, sz, e, en, NULL); hm_free(e);
+            if (!abandon) { FB(); char *s = L->tostring(L); FE(); e = sq_flat(&en, true); if (!refused(s)) retain("qlist.tostring", s, s ? strlen(s) + 1 : 0, e, strlen(e) + 1, NULL); hm_free(e); } }
         else if (c < 86) { vf_log("walk(newmem)"); qlist_obj_t o; memset(&o, 0, sizeof o); int i = 0;
             while (!abandon && L->getnext(L, &o, true)) { if (i >= NSQ) { bad("walk-extra", "walk too long"); free(o.data); break; } retain("qlist.getnext", o.data, o.size, SQ[i].d, SQ[i].n, NULL); i++; } }
         else if (c < 92 && NSQ) { vf_log("removeat %d", pos); L->removeat(L, pos); sq_del(pos); mut = true; }
@@ -306,8 +313,8 @@ static void run_qs(long caseno, bool is_stack) {
         else if (c < 75 && NSQ) { bool str = SQ[0].d[SQ[0].n - 1] == 0 && strlen((char *)SQ[0].d) + 1 == SQ[0].n && rng_chance(&R, 1, 2); size_t sz = 0;
             vf_log("get%s", str ? "str" : "");
             void *in = QS(Q->get(Q, NULL, false), S->get(S, NULL, false));
-            void *d = str ? (void *)QS(Q->getstr(Q), S->getstr(S)) : QS(Q->get(Q, &sz, true), S->get(S, &sz, true)); if (str && d) sz = strlen(d) + 1;
-            retain(is_stack ? (str ? "qstack.getstr" : "qstack.get") : (str ? "qqueue.getstr" : "qqueue.get"), d, sz, SQ[0].d, SQ[0].n, in); }
+            FB(); void *d = str ? (void *)QS(Q->getstr(Q), S->getstr(S)) : QS(Q->get(Q, &sz, true), S->get(S, &sz, true)); FE(); if (str && d) sz = strlen(d) + 1;
+            if (!refused(d)) retain(is_stack ? (str ? "qstack.getstr" : "qstack.get") : (str ? "qqueue.getstr" : "qqueue.get"), d, sz, SQ[0].d, SQ[0].n, in); }
         else if (c < 90 && NSQ) { int p = (int)rng_below(&R, (uint32_t)NSQ); bool pop = rng_chance(&R, 1, 2); size_t sz = 0;
             vf_log("%s %d", pop ? "popat" : "getat", p);
             void *d = pop ? QS(Q->popat(Q, p, &sz), S->popat(S, p, &sz)) : QS(Q->getat(Q, p, &sz, true), S->getat(S, p, &sz, true));
@@ -333,8 +340,8 @@ static void run_grow(long caseno) {
             bool str = kind == 1 && rng_chance(&R, 1, 2);
             bool r = str ? G->addstr(G, (char *)v.p) : G->add(G, v.p, v.n); cb_kill(&v);
             if (!r) { bad("add-failed", "grow add failed"); break; } sq_ins(NSQ, VB, str ? vl - 1 : vl); mut = true; }
-        else if (c < 90 && NSQ) { vf_log("toarray/tostring"); size_t sz = 0, en; void *a = G->toarray(G, &sz); void *e = sq_flat(&en, false); retain("qgrow.toarray", a, sz, e, en, NULL); hm_free(e);
-            if (!abandon) { char *s = G->tostring(G); e = sq_flat(&en, true); retain("qgrow.tostring", s, s ? strlen(s) + 1 : 0, e, strlen(e) + 1, NULL); hm_free(e); } }
+        else if (c < 90 && NSQ) { vf_log("toarray/tostring"); size_t sz = 0, en; FB(); void *a = G->toarray(G, &sz); FE(); void *e = sq_flat(&en, false); if (!refused(a)) retain("qgrow.toarray", a, sz, e, en, NULL); hm_free(e);
+            if (!abandon) { FB(); char *s = G->tostring(G); FE(); e = sq_flat(&en, true); if (!refused(s)) retain("qgrow.tostring", s, s ? strlen(s) + 1 : 0, e, strlen(e) + 1, NULL); hm_free(e); } }
         else if (c < 93) { vf_log("clear"); G->clear(G); sq_clear(); mut = true; }
         vf_count("evaluations", 1);
         if (mut && !abandon) pool_verify("after a later mutation of the container");
@@ -364,13 +371,13 @@ static void run_vector(long caseno) {
         else if (c < 60 && NSQ) { int how = (int)rng_below(&R, 3); int p = how == 0 ? 0 : how == 1 ? NSQ - 1 : pos;
             vf_log("get(newmem) %d", p);
             void *in = V->getat(V, p, false);
-            void *d = how == 0 ? V->getfirst(V, true) : how == 1 ? V->getlast(V, true) : V->getat(V, p, true);
-            retain(how == 0 ? "qvector.getfirst" : how == 1 ? "qvector.getlast" : "qvector.getat", d, es, SQ[p].d, es, in); }
+            FB(); void *d = how == 0 ? V->getfirst(V, true) : how == 1 ? V->getlast(V, true) : V->getat(V, p, true); FE();
+            if (!refused(d)) retain(how == 0 ? "qvector.getfirst" : how == 1 ? "qvector.getlast" : "qvector.getat", d, es, SQ[p].d, es, in); }
         else if (c < 74 && NSQ) { int how = (int)rng_below(&R, 3); int p = how == 0 ? 0 : how == 1 ? NSQ - 1 : pos;
             vf_log("pop %d", p);
             void *d = how == 0 ? V->popfirst(V) : how == 1 ? V->poplast(V) : V->popat(V, p);
             retain(how == 0 ? "qvector.popfirst" : how == 1 ? "qvector.poplast" : "qvector.popat", d, es, SQ[p].d, es, NULL); sq_del(p); mut = true; }
-        else if (c < 80 && NSQ) { vf_log("toarray"); size_t cnt = 0, en; void *a = V->toarray(V, &cnt); void *e = sq_flat(&en, false); retain("qvector.toarray", a, cnt * es, e, en, V->data); hm_free(e); }
+        else if (c < 80 && NSQ) { vf_log("toarray"); size_t cnt = 0, en; FB(); void *a = V->toarray(V, &cnt); FE(); void *e = sq_flat(&en, false); if (!refused(a)) retain("qvector.toarray", a, cnt * es, e, en, V->data); hm_free(e); }
         else if (c < 88) { vf_log("walk(newmem)"); qvector_obj_t o; memset(&o, 0, sizeof o); int i = 0;
             while (!abandon && V->getnext(V, &o, true)) { if (i >= NSQ) { bad("walk-extra", "walk too long"); free(o.data); break; } retain("qvector.getnext", o.data, es, SQ[i].d, es, (char *)V->data + (size_t)i * es); i++; } }
         else if (c < 93 && NSQ) { vf_log("removeat %d", pos); V->removeat(V, pos); sq_del(pos); mut = true; }
